@@ -27,26 +27,33 @@ from saml2_tophat.ident import IdentDB
 from saml2_tophat.saml import NameID
 
 CLAIM = {
-    "text": "Coq theorems (Props/C18.v) over an executable model of ident.code/decode (urllib quote with safe='/' / unquote) and of IdentDB as a state machine over ONE string-keyed map exactly as the Python uses its dict/shelve (space-joined codes under the user id, user id under the identifier text). The model follows the library WITH the two repairs proposed_fix/C18-1.diff (remove_remote deletes the user's entry when it removes the last identifier) and proposed_fix/C18-2.diff (remove_local no longer raises NameError on Python 3); the code before the repairs is kept as ..._before_fix definitions with refutation witnesses. Codec, for ALL byte strings in all five fields (induction, not sampling): decode(code n) = normalised n (only ''/None are identified), code is injective on normalised identifiers and never contains a space. Store, by induction over ANY sequence of public operations (issue, persistent/transient, construct, mapping request, manage-name-id, remove_remote, remove_local, lookups) whose user ids and identifier texts come from disjoint key spaces and whose digest source never yields a user id: EVERY element of the code list recorded under a user decodes to an identifier with a non-empty text that resolves (find_local_id) to exactly that user, whatever resolves to a user is recorded under that user, and no two recorded identifiers share a text. Persistent identifiers, full statements for ANY qualifiers including empty ones: whatever persistent_nameid/match_local_id finds, and whatever a mapping request returns for any policy, has a non-empty text resolving to the right principal; the call after an issuing call returns the same identifier and changes nothing, later issues for anybody never change it; identifiers matched for different users or different SP/name qualifiers (as Python reads them: None = '') have different texts. remove_local(u) in any reachable state returns None, leaves u without recorded identifier, no text resolves to u any more, and records and resolutions of all other users are untouched. Every newly issued identifier text is not a key of the previous state (the create_id loop), for every digest stream. Outside the hypotheses (kept visible as witnesses): raw store() can re-bind an identifier; e-mail format checks freshness of the wrong string. Tie to the code: ident.ATTR and the three format constants are regenerated from source on every run; model vs real IdentDB after every step on exhaustive operation sequences over a small alphabet and long random histories (dict- and shelve-backed), codec on hostile field contents.",
-    "note": "Trusted: Coq kernel + vm_compute; the model is hand-written and tied to the code by the correspondence (exhaustive up to the stated length over the stated alphabets, random beyond). The check expects /repo + proposed_fix/C18-1.diff + proposed_fix/C18-2.diff: on the code without them the correspondence and the oracle keys persistent:identifier-without-text:*, map_req:identifier-without-text:*, remove_local:raises-NameError report the defects again. Strings are modelled as UTF-8 byte lists (UTF-8 encode/decode itself is not modelled; texts whose percent-escapes are not valid UTF-8 are generated but not compared). The digest source (sha256 over rndbytes) is an argument of the model (the list of values drawn during the call), never an axiom; its freshness w.r.t. user ids is an explicit hypothesis (op_wf). int() forms with whitespace/underscores/non-ASCII digits in decode, NameIDs without text in store(), and remove_local meeting a stored code without text on a shelve (AttributeError instead of the swallowed KeyError; not reachable through the operations) are outside the model. Partial: stability across manage-name-id when low-level calls created two non-transient identifiers for one (user, SP) is not claimed.",
-    "technique": "machine-checked proof (Coq; induction over strings and over operation sequences) + regenerated constants + exhaustive/random model-vs-implementation correspondence after every step + reference-map oracle",
+    "text": "Coq theorems (Props/C18.v) over an executable model of ident.code/decode (urllib quote with safe='/' / unquote) and of IdentDB as a state machine over ONE string-keyed map exactly as the Python uses its dict/shelve (space-joined codes under the user id, user id under the identifier text). The model follows the library WITH the two repairs proposed_fix/C18-1.diff (remove_remote deletes the user's entry when it removes the last identifier) and proposed_fix/C18-2.diff (remove_local no longer raises NameError on Python 3); the code before the repairs is kept as ..._before_fix definitions with refutation witnesses. Codec, for ALL byte strings in all five fields (induction, not sampling): decode(code n) = normalised n (only ''/None are identified), code is injective on normalised identifiers and never contains a space. Store, by induction over ANY sequence of public operations (issue, persistent/transient, construct, mapping request, manage-name-id, remove_remote, remove_local, lookups) whose user ids and identifier texts come from disjoint key spaces and whose digest source never yields a user id: EVERY element of the code list recorded under a user decodes to an identifier with a non-empty text that resolves (find_local_id) to exactly that user, whatever resolves to a user is recorded under that user, and no two recorded identifiers share a text. Persistent identifiers, full statements for ANY qualifiers including empty ones: whatever persistent_nameid/match_local_id finds, and whatever a mapping request returns for any policy, has a non-empty text resolving to the right principal; the call after an issuing call returns the same identifier and changes nothing, later issues for anybody never change it; identifiers matched for different users or different SP/name qualifiers (as Python reads them: None = '') have different texts. remove_local(u) in any reachable state returns None, leaves u without recorded identifier, no text resolves to u any more, and records and resolutions of all other users are untouched. Every newly issued identifier text is not a key of the previous state (the create_id loop), for every digest stream. Across processes (Model/IdentWorkers.v: a deployment is a list of workers, each with its own store and its own digest stream): by induction over a worker's history every text it issues new (transient call, persistent call that finds nothing) is an element of its own stream and was no key of its store, so workers whose streams share no digest never issue the same text, for any configurations, stores, histories and number of workers, and each transient identifier resolves to its own user in its own store; with equal streams (a fork duplicated the generator state) the same text goes to two users (C18_workers_shared_stream_refuted). Outside the hypotheses (kept visible as witnesses): raw store() can re-bind an identifier; e-mail format checks freshness of the wrong string. Tie to the code: ident.ATTR and the three format constants are regenerated from source on every run; model vs real IdentDB after every step on exhaustive operation sequences over a small alphabet and long random histories (dict- and shelve-backed), codec on hostile field contents; the independence of the digest streams of different processes is tied on every run with the REAL digest source: workers forked after import and after issuing (3 per round, 5 transient + 5 persistent identifiers each on their own IdentDB, results through pipes), the parent afterwards and 2 fresh interpreters must issue pairwise different texts (also rndstr/rndbytes/sid), compared with the deployment model; rndstr, rndbytes, sid, create_id and the issuing calls must not repeat after random.seed(constant) nor with all clocks and the pid frozen.",
+    "note": "Trusted: Coq kernel + vm_compute; the model is hand-written and tied to the code by the correspondence (exhaustive up to the stated length over the stated alphabets, random beyond). The check expects /repo as it is (the repairs proposed_fix/C18-1.diff and C18-2.diff are committed there): on code without them the correspondence and the oracle keys persistent:identifier-without-text:*, map_req:identifier-without-text:*, remove_local:raises-NameError report the defects again. Strings are modelled as UTF-8 byte lists (UTF-8 encode/decode itself is not modelled; texts whose percent-escapes are not valid UTF-8 are generated but not compared). The digest source (sha256 over rndbytes) is an argument of the model (the list of values drawn during the call), never an axiom; its freshness w.r.t. user ids is an explicit hypothesis (op_wf), and so is the independence of the streams of different processes (independent / independent_all), which the units processes and os-source test on the real source (a test, not a proof: 2 rounds x 3 forked workers, 2 fresh interpreters). int() forms with whitespace/underscores/non-ASCII digits in decode, NameIDs without text in store(), and remove_local meeting a stored code without text on a shelve (AttributeError instead of the swallowed KeyError; not reachable through the operations) are outside the model. Partial: stability across manage-name-id when low-level calls created two non-transient identifiers for one (user, SP) is not claimed.",
+    "technique": "machine-checked proof (Coq; induction over strings and over operation sequences, per worker of a deployment) + regenerated constants + exhaustive/random model-vs-implementation correspondence after every step + reference-map oracle + forked-worker / fresh-interpreter freshness oracle on the real random source",
 }
 TRUSTED = [
     "Gen/IdentConsts.v (ident.ATTR, NAMEID_FORMAT_{PERSISTENT,TRANSIENT,EMAILADDRESS} as ident.py sees them) is regenerated by harness/translate_c18.py",
     "modelled: ident.code/decode, IdentDB.store/remove_remote/remove_local/create_id/get_nameid/find_nameid/construct_nameid(+nim_args)/transient_nameid/persistent_nameid/find_local_id/match_local_id/handle_name_id_mapping_request/handle_manage_name_id_request; NOT modelled: UTF-8, sha256/rndbytes (an argument of the model), shelve/pickle (exercised by the shelve-backed runs), mongo_store.IdentMDB",
-    "the harness replaces the name sha256 inside saml2_tophat.ident by a scripted digest object (self-checked; fallback: read ids back)",
+    "the harness replaces the name sha256 inside saml2_tophat.ident by a scripted digest object (self-checked; fallback: read ids back); the units processes / os-source / deployment run with the REAL sha256 and random source, identifiers read back",
+    "Model/IdentWorkers.v (op_cands, stream, issued_texts, show_workers) is tied by the unit deployment: every worker's outputs after every step, the texts it issued new and the pairwise-disjointness flag, model vs the real forked workers",
+    "os.fork / pipes / subprocess of the harness itself",
 ]
 ASSUMPTIONS = [
     "key-space hypothesis of the store theorems (op_wf): user ids satisfy is_user, identifier texts handed in by callers and every digest (also digest@domain) do not; all strings are byte lists (< 256)",
     "e-mail format identifiers are excluded from the store invariant unless IdentDB.domain is empty (the create_id loop checks the digest, not digest@domain: C18_email_collision_refuted)",
     "remove_local is called with a user id (is_user): called with an identifier text it deletes that text's reverse entry only, which is key-space mixing by the caller",
-    "the library state is /repo + proposed_fix/C18-1.diff + proposed_fix/C18-2.diff",
+    "the library state is /repo as it is (with the committed repairs C18-1, C18-2)",
+    "independence of processes (independent / independent_all in Proofs/IdentWorkers_lemmas.v): the digest stream of one process - everything sha256(rndbytes(32)...) yields there - shares no value with the stream of any other process, forked or freshly started; false for a generator whose state lives in process memory that a fork duplicates (C18_workers_shared_stream_refuted); tied by the units processes (fork after import / after issuing, fresh interpreters) and os-source (no dependence on random.seed, clocks, pid)",
+    "across processes only identifier texts issued NEW by transient_nameid / persistent_nameid are claimed different; e-mail format identifiers (digest@domain) are outside that statement",
 ]
 RULE = ("history unit: EVERY operation sequence of the stated length over the operation alphabet (users u1,u2 x SP qualifiers sp1,sp2,'' x "
         "persistent/transient/construct/mapping/manage/remove on first- and last-issued identifiers, scripted colliding digests) plus random long "
         "histories over a wider alphabet (3 users incl. one that looks like a code, 4 SP qualifiers incl. '' and a hostile one, 2 name qualifiers, "
         "3 formats, domain set/unset); after every state-changing step the observation operations are appended. Non-trivial = history with at "
-        "least one successful state change (distinct by content). codec unit: exhaustive singles/pairs of hostile field values + random.")
+        "least one successful state change (distinct by content). codec unit: exhaustive singles/pairs of hostile field values + random. "
+        "processes unit (real digest source, both tiers): 2 rounds (fork right after import; fork after the parent has issued) x 3 forked workers + the parent "
+        "afterwards (+ the warm-up history), each 5 transient + 5 persistent identifiers for different users and the persistent calls repeated, and 2 fresh "
+        "interpreters x (3 + 3): all texts pairwise different; os-source unit: 8 draws x 2 modes x 3 calls.")
 
 PERSISTENT = saml.NAMEID_FORMAT_PERSISTENT
 TRANSIENT = saml.NAMEID_FORMAT_TRANSIENT
@@ -705,7 +712,7 @@ def worker_history(ctx, tag):
         pt.append(r.text if isinstance(r, NameID) else repr(r))
     for j, u in enumerate(users):
         w.apply(("persistent", u, "sp1", "", []))
-    return tt, pt, w.case("worker:" + tag), w
+    return tt, pt, dict(w.case("worker:" + tag), ops=list(w.ops), outs=list(w.outs), cfg=w.cfg()), w
 
 
 def _child_main(tag, wfd):
@@ -900,6 +907,7 @@ def unit_processes(ctx):
     from saml2_tophat import s_utils
     cases = []
     for rnd, warm in enumerate((False, True)):
+        members = []
         how = "fork-after-%s" % ("issuing" if warm else "import")
         if warm:
             pre = worker_history(_Rec(), "r%d-warmup" % rnd)
@@ -915,7 +923,7 @@ def unit_processes(ctx):
                 ctx.oracle_fail("processes:%s:worker-failed" % how, "worker %s: %s" % (p["tag"], p["error"][-600:]), {"unit": "processes", "how": how})
                 continue
             procs.append(p)
-            cases.append(p["case"])
+            members.append(p)
             for k, what, rp in p["fails"]:
                 ctx.oracle_fail(k, "[process %s] %s" % (p["tag"], what), rp)
             for k, n in p["counts"].items():
@@ -923,6 +931,14 @@ def unit_processes(ctx):
             ctx.nontriv(("process", p["tag"], tuple(p["tt"]), tuple(p["pt"])))
         if warm:
             procs.append(dict(tag="r%d-warmup" % rnd, tt=pre[0], pt=pre[1]))
+            members.append(dict(tag="r%d-warmup" % rnd, tt=pre[0], pt=pre[1], case=pre[2]))
+        if members:
+            texts = [m["tt"] + m["pt"] for m in members]
+            disjoint = all(not (set(a) & set(b)) for i, a in enumerate(texts) for b in texts[i + 1:])
+            cases.append(dict(id="deployment:" + how,
+                              coq="(%s, [%s])" % (members[0]["case"]["cfg"], "; ".join("[%s]" % "; ".join(m["case"]["ops"]) for m in members)),
+                              impl=[[m["case"]["outs"] for m in members], [[t.encode("utf-8") for t in ts] for ts in texts], disjoint],
+                              show={"workers": [m["tag"] for m in members], "first": members[0]["case"]["show"][:4]}))
         _check_disjoint(ctx, procs, how)
         ctx.count("processes:%s:workers" % how, len(kids))
         if rnd == 0 and procs:
@@ -942,7 +958,7 @@ def unit_processes(ctx):
 
 def run_processes(ctx):
     cases = unit_processes(ctx)
-    ctx.correspond("worker_histories", "Model.Ident", "show_history", "(cfg * list op)", cases)
+    ctx.correspond("deployment", "Model.Ident Model.IdentWorkers", "show_workers", "(cfg * deployment)", cases)
 
 
 def _timed(ctx, name, f, *a):
